@@ -11,6 +11,7 @@
 package c14
 
 import (
+	"syscall"
 	"context"
 	"crypto/sha256"
 	"encoding/hex"
@@ -214,8 +215,32 @@ var registerModel = porcupine.Model{
 	},
 }
 
-func newRoot() (string, func()) {
-	d, err := os.MkdirTemp("", "c14-")
+func newRoot() (string, func()) { return newRootOn(false) }
+
+// otherMount is a writable directory on another file system than the default temporary
+// directory ("" when the machine has none): a cache root there cannot be reached from
+// $TMPDIR by rename(2).
+var otherMount = func() string {
+	var a, b syscall.Stat_t
+	if syscall.Stat(os.TempDir(), &a) != nil || syscall.Stat("/dev/shm", &b) != nil || a.Dev == b.Dev {
+		return ""
+	}
+	d, err := os.MkdirTemp("/dev/shm", "c14-probe-")
+	if err != nil {
+		return ""
+	}
+	os.RemoveAll(d)
+	return "/dev/shm"
+}()
+
+// newRootOn creates a cache root under the default temporary directory or, when other is set
+// and the machine has one, on another file system.
+func newRootOn(other bool) (string, func()) {
+	base := ""
+	if other {
+		base = otherMount
+	}
+	d, err := os.MkdirTemp(base, "c14-")
 	if err != nil {
 		panic(err)
 	}
